@@ -239,6 +239,10 @@ class PythonCryptoEndpoint(CryptoEndpoint, EndpointListener):
                     # We should only get here directly after a created message has been accepted.
                     other = self.relays[relay.circuit_id]
                     self.encrypt_cell(cell, other.direction, other.hop)
+            elif not cell.plaintext:
+                # Without a routing entry there are no keys: never send such a cell unencrypted.
+                self.logger.warning("Dropping outgoing cell for unknown circuit %d", circuit_id)
+                return None
         except CryptoException as e:
             self.logger.warning(str(e))
             return None
